@@ -3,6 +3,7 @@ import DashLive.Model.Boxes.Basic
 import DashLive.Model.Boxes.Frag
 import DashLive.Model.Boxes.Cenc
 import DashLive.Model.Boxes.Index
+import DashLive.Model.Boxes.Audio
 /-!
 Box trees of `dashlive/mpeg/mp4.py`.
 
@@ -24,7 +25,7 @@ open DashLive.Bytes
 /-! ### registry -/
 inductive Kind
   | container | ftyp | mfhd | tfhd | tfdt | trun | saiz | saio | senc | tenc | pssh | mehd | trex
-  | sidx | emsg | opaque
+  | sidx | emsg | dec3 | opaque
   deriving DecidableEq, Repr
 
 def piffUuid : Bytes :=
@@ -38,7 +39,7 @@ def leafCodes : List (Bytes × Kind) :=
   [(ascii "ftyp", .ftyp), (ascii "styp", .ftyp), (ascii "mfhd", .mfhd), (ascii "tfhd", .tfhd),
    (ascii "tfdt", .tfdt), (ascii "trun", .trun), (ascii "saiz", .saiz), (ascii "saio", .saio),
    (ascii "senc", .senc), (ascii "tenc", .tenc), (ascii "pssh", .pssh), (ascii "mehd", .mehd),
-   (ascii "trex", .trex), (ascii "sidx", .sidx), (ascii "emsg", .emsg)]
+   (ascii "trex", .trex), (ascii "sidx", .sidx), (ascii "emsg", .emsg), (ascii "dec3", .dec3)]
 
 def kindOf : BoxType → Kind
   | .std cc => if containerCodes.contains cc then .container else (leafCodes.lookup cc).getD .opaque
@@ -47,7 +48,7 @@ def kindOf : BoxType → Kind
 inductive Payload
   | ftyp (x : Ftyp) | mfhd (x : Mfhd) | tfhd (x : Tfhd) | tfdt (x : Tfdt) | trun (x : Trun)
   | saiz (x : Saiz) | saio (x : Saio) | senc (x : Senc) | tenc (x : Tenc) | pssh (x : Pssh)
-  | mehd (x : Mehd) | trex (x : Trex) | sidx (x : Sidx) | emsg (x : Emsg)
+  | mehd (x : Mehd) | trex (x : Trex) | sidx (x : Sidx) | emsg (x : Emsg) | dec3 (x : Dec3)
   | opaque (data : Bytes)
   deriving DecidableEq, Repr
 
@@ -55,7 +56,7 @@ def encPayload : Payload → Bytes
   | .ftyp x => encFtyp x | .mfhd x => encMfhd x | .tfhd x => encTfhd x | .tfdt x => encTfdt x
   | .trun x => encTrun x | .saiz x => encSaiz x | .saio x => encSaio x | .senc x => encSenc x
   | .tenc x => encTenc x | .pssh x => encPssh x | .mehd x => encMehd x | .trex x => encTrex x
-  | .sidx x => encSidx x | .emsg x => encEmsg x | .opaque d => d
+  | .sidx x => encSidx x | .emsg x => encEmsg x | .dec3 x => encDec3 x | .opaque d => d
 
 /-- `Box.parse` of the class the registry selects (`none` for a container code) -/
 def decPayload (ctx : SencCtx) (k : Kind) (bs : Bytes) : Option Payload :=
@@ -75,6 +76,7 @@ def decPayload (ctx : SencCtx) (k : Kind) (bs : Bytes) : Option Payload :=
   | .trex => (decTrex bs).map .trex
   | .sidx => (decSidx bs).map .sidx
   | .emsg => (decEmsg bs).map .emsg
+  | .dec3 => (decDec3 bs).map .dec3
   | .opaque => some (.opaque bs)
 
 /-- the payload is of the class `k` and its field values are legal -/
@@ -84,7 +86,8 @@ def PayloadWf (ctx : SencCtx) (k : Kind) (p : Payload) : Prop :=
   | .tfdt, .tfdt x => x.Wf | .trun, .trun x => x.Wf | .saiz, .saiz x => x.Wf
   | .saio, .saio x => x.Wf | .senc, .senc x => x.Wf ctx | .tenc, .tenc x => x.Wf
   | .pssh, .pssh x => x.Wf | .mehd, .mehd x => x.Wf | .trex, .trex x => x.Wf
-  | .sidx, .sidx x => x.Wf | .emsg, .emsg x => x.Wf | .opaque, .opaque _ => True
+  | .sidx, .sidx x => x.Wf | .emsg, .emsg x => x.Wf | .dec3, .dec3 x => x.Wf
+  | .opaque, .opaque _ => True
   | _, _ => False
 
 /-! ### trees -/
